@@ -212,3 +212,228 @@ package goldilocks
 //@   circuit
 //@   honest x.Limb == y.Limb
 //@   ensures x.Limb == y.Limb
+
+// ------------------------------------------------------------------ GF(p^2) = F_p[X]/(X^2 - 7)
+// Specification over pairs of integers in [0,P).
+
+//@ def qe_add(a, b) = tuple((a[0] + b[0]) % P, (a[1] + b[1]) % P)
+//@ def qe_sub(a, b) = tuple((a[0] - b[0]) % P, (a[1] - b[1]) % P)
+//@ def qe_mul(a, b) = tuple((a[0]*b[0] + 7*a[1]*b[1]) % P, (a[0]*b[1] + a[1]*b[0]) % P)
+//@ def qe_muladd(a, b, c) = tuple((a[0]*b[0] + 7*a[1]*b[1] + c[0]) % P, (a[0]*b[1] + a[1]*b[0] + c[1]) % P)
+//@ def qe_submul(a, b, c) = tuple(((a[0]-b[0])*c[0] + 7*(a[1]-b[1])*c[1]) % P, ((a[0]-b[0])*c[1] + (a[1]-b[1])*c[0]) % P)
+//@ def qe_smul(a, s) = tuple((a[0]*s) % P, (a[1]*s) % P)
+//@ def qe_raw_mul(a, b) = tuple(a[0]*b[0] + 7*a[1]*b[1], a[0]*b[1] + a[1]*b[0])
+//@ def dv(x) = x / P
+
+//@ func (p *Chip) AddExtension(a QuadraticExtensionVariable, b QuadraticExtensionVariable) (res QuadraticExtensionVariable)
+//@   props C05 C08
+//@   circuit
+//@   requires chipok(p) && canonQE(a) && canonQE(b)
+//@   ensures canonQE(res)
+//@   ensures res == qe_add(a, b)
+
+//@ func (p *Chip) AddExtensionNoReduce(a QuadraticExtensionVariable, b QuadraticExtensionVariable) (res QuadraticExtensionVariable)
+//@   props C05 C08
+//@   circuit
+//@   requires a[0].Limb + b[0].Limb < R && a[1].Limb + b[1].Limb < R
+//@   ensures res == tuple(a[0].Limb + b[0].Limb, a[1].Limb + b[1].Limb)
+
+//@ func (p *Chip) SubExtension(a QuadraticExtensionVariable, b QuadraticExtensionVariable) (res QuadraticExtensionVariable)
+//@   props C05 C08
+//@   circuit
+//@   requires chipok(p) && canonQE(a) && canonQE(b)
+//@   ensures canonQE(res)
+//@   ensures res == qe_sub(a, b)
+
+//@ func (p *Chip) SubExtensionNoReduce(a QuadraticExtensionVariable, b QuadraticExtensionVariable) (res QuadraticExtensionVariable)
+//@   props C05 C08
+//@   circuit
+//@   requires a[0].Limb + b[0].Limb*(P-1) < R && a[1].Limb + b[1].Limb*(P-1) < R
+//@   ensures res == tuple(a[0].Limb + b[0].Limb*(P-1), a[1].Limb + b[1].Limb*(P-1))
+
+//@ func (p *Chip) MulExtensionNoReduce(a QuadraticExtensionVariable, b QuadraticExtensionVariable) (res QuadraticExtensionVariable)
+//@   props C05 C08
+//@   circuit
+//@   requires 7*a[1].Limb < R
+//@   requires a[0].Limb*b[0].Limb + 7*a[1].Limb*b[1].Limb < R && a[0].Limb*b[1].Limb + a[1].Limb*b[0].Limb < R
+//@   ensures res == qe_raw_mul(a, b)
+
+//@ func (p *Chip) MulExtension(a QuadraticExtensionVariable, b QuadraticExtensionVariable) (res QuadraticExtensionVariable)
+//@   props C05 C08
+//@   circuit
+//@   requires chipok(p) && canonQE(a) && canonQE(b)
+//@   ensures canonQE(res)
+//@   ensures res == qe_mul(a, b)
+
+//@ func (p *Chip) MulAddExtension(a QuadraticExtensionVariable, b QuadraticExtensionVariable, c QuadraticExtensionVariable) (res QuadraticExtensionVariable)
+//@   props C05 C08
+//@   circuit
+//@   requires chipok(p) && canonQE(a) && canonQE(b) && canonQE(c)
+//@   ensures canonQE(res)
+//@   ensures res == qe_muladd(a, b, c)
+
+//@ func (p *Chip) MulAddExtensionNoReduce(a QuadraticExtensionVariable, b QuadraticExtensionVariable, c QuadraticExtensionVariable) (res QuadraticExtensionVariable)
+//@   props C05 C08
+//@   circuit
+//@   requires 7*a[1].Limb < R
+//@   requires a[0].Limb*b[0].Limb + 7*a[1].Limb*b[1].Limb + c[0].Limb < R && a[0].Limb*b[1].Limb + a[1].Limb*b[0].Limb + c[1].Limb < R
+//@   ensures res == tuple(a[0].Limb*b[0].Limb + 7*a[1].Limb*b[1].Limb + c[0].Limb, a[0].Limb*b[1].Limb + a[1].Limb*b[0].Limb + c[1].Limb)
+
+//@ func (p *Chip) SubMulExtension(a QuadraticExtensionVariable, b QuadraticExtensionVariable, c QuadraticExtensionVariable) (res QuadraticExtensionVariable)
+//@   props C05 C08
+//@   circuit
+//@   requires chipok(p) && canonQE(a) && canonQE(b) && canonQE(c)
+//@   ensures canonQE(res)
+//@   ensures res == qe_submul(a, b, c)
+
+//@ func (p *Chip) ScalarMulExtension(a QuadraticExtensionVariable, b Variable) (res QuadraticExtensionVariable)
+//@   props C05 C08
+//@   circuit
+//@   requires chipok(p) && canonQE(a) && canon(b)
+//@   ensures canonQE(res)
+//@   ensures res == qe_smul(a, b)
+
+//@ func (p *Chip) ReduceExtension(x QuadraticExtensionVariable) (res QuadraticExtensionVariable)
+//@   props C05 C08
+//@   circuit
+//@   requires chipok(p)
+//@   honest x[0].Limb < pow2(144) * P && x[1].Limb < pow2(144) * P
+//@   ensures canonQE(res)
+//@   ensures res == tuple(x[0].Limb % P, x[1].Limb % P)
+
+//@ func (p *Chip) IsZero(x QuadraticExtensionVariable) (res frontend.Variable)
+//@   props C08
+//@   circuit
+//@   ensures res == ite(x[0].Limb == 0 && x[1].Limb == 0, 1, 0)
+
+//@ func (p *Chip) Lookup(b frontend.Variable, x QuadraticExtensionVariable, y QuadraticExtensionVariable) (res QuadraticExtensionVariable)
+//@   props C08
+//@   circuit
+//@   honest b == 0 || b == 1
+//@   ensures b == 0 || b == 1
+//@   ensures res == ite(b == 1, y, x)
+
+//@ func (p *Chip) Lookup2(b0 frontend.Variable, b1 frontend.Variable, qe0 QuadraticExtensionVariable, qe1 QuadraticExtensionVariable, qe2 QuadraticExtensionVariable, qe3 QuadraticExtensionVariable) (res QuadraticExtensionVariable)
+//@   props C08
+//@   circuit
+//@   honest (b0 == 0 || b0 == 1) && (b1 == 0 || b1 == 1)
+//@   ensures (b0 == 0 || b0 == 1) && (b1 == 0 || b1 == 1)
+//@   ensures res == ite(b1 == 1, ite(b0 == 1, qe3, qe2), ite(b0 == 1, qe1, qe0))
+
+//@ func (p *Chip) AssertIsEqualExtension(a QuadraticExtensionVariable, b QuadraticExtensionVariable)
+//@   props C08
+//@   circuit
+//@   honest a == b
+//@   ensures a == b
+
+//@ func (p *Chip) RangeCheckQE(a QuadraticExtensionVariable)
+//@   props C08 C17
+//@   circuit
+//@   requires chipok(p)
+//@   honest canonQE(a)
+//@   ensures canonQE(a)
+
+// Inversion: a^-1 = conj(a) * N(a)^-1 with conj(a) = (a0, -a1) and N(a) = a0^2 - 7 a1^2 in F_p.
+// `qe_norm` is the value the circuit computes for N(a).  That N(a) != 0 for every a != 0
+// (7 is a quadratic non-residue mod P) is number theory, not proved here: the postcondition is
+// stated under hasInv == 1, and hasInv is proved to be exactly the indicator of N(a) != 0.
+// The `assert` clauses are proof hints (explicit quotient witnesses); each is itself an obligation.
+//@ def qe_negc(x) = (x * (P - 1)) % P
+//@ def qe_norm(a) = (a[0]*a[0] + 7*qe_negc(a[1])*a[1]) % P
+
+//@ func (p *Chip) InverseExtension(a QuadraticExtensionVariable) (res QuadraticExtensionVariable, hasInv frontend.Variable)
+//@   props C05 C08
+//@   circuit
+//@   requires chipok(p) && canonQE(a)
+//@   honest !(a[0].Limb == 0 && a[1].Limb == 0)
+//@   ensures !(a[0].Limb == 0 && a[1].Limb == 0)
+//@   ensures canonQE(res)
+//@   ensures hasInv == ite(qe_norm(a) == 0, 0, 1)
+//@   assert implies(hasInv == 1, a[0]*res[0] + 7*a[1]*res[1] == 1 + P*(dv(aPowRInv*aPowR[0]) + aPowRInv*dv(a[0]*a[0] + 7*aPowRMinus1[1]*a[1]) - a[0]*dv(a[0]*aPowRInv) - 7*a[1]*dv(aPowRMinus1[1]*aPowRInv)))
+//@   assert a[0]*res[1] + a[1]*res[0] == P*(a[0]*aPowRInv*(a[1] - dv(a[1]*(P-1))) - a[0]*dv(aPowRMinus1[1]*aPowRInv) - a[1]*dv(a[0]*aPowRInv))
+//@   ensures implies(hasInv == 1, qe_mul(a, res) == tuple(1, 0))
+
+//@ func (p *Chip) DivExtension(a QuadraticExtensionVariable, b QuadraticExtensionVariable) (res QuadraticExtensionVariable, hasInv frontend.Variable)
+//@   props C05 C08
+//@   circuit
+//@   requires chipok(p) && canonQE(a) && canonQE(b)
+//@   honest !(b[0].Limb == 0 && b[1].Limb == 0)
+//@   ensures !(b[0].Limb == 0 && b[1].Limb == 0)
+//@   ensures canonQE(res)
+//@   ensures hasInv == ite(qe_norm(b) == 0, 0, 1)
+//@   assert implies(hasInv == 1, b[0]*res[0] + 7*b[1]*res[1] == a[0] + P*(a[0]*dv(b[0]*bInv[0] + 7*b[1]*bInv[1]) + 7*a[1]*dv(b[0]*bInv[1] + b[1]*bInv[0]) - b[0]*dv(a[0]*bInv[0] + 7*a[1]*bInv[1]) - 7*b[1]*dv(a[0]*bInv[1] + a[1]*bInv[0])))
+//@   assert implies(hasInv == 1, b[0]*res[1] + b[1]*res[0] == a[1] + P*(a[0]*dv(b[0]*bInv[1] + b[1]*bInv[0]) + a[1]*dv(b[0]*bInv[0] + 7*b[1]*bInv[1]) - b[0]*dv(a[0]*bInv[1] + a[1]*bInv[0]) - b[1]*dv(a[0]*bInv[0] + 7*a[1]*bInv[1])))
+//@   ensures implies(hasInv == 1, qe_mul(b, res) == tuple(a[0].Limb, a[1].Limb))
+
+// Horner evaluation from the last term: h(n) = 0, h(i) = h(i+1) * s + t[i]   (plonky2 reduce_with_powers)
+//@ recdef qe_horner(t []QE, s QE, i int) QE = ite(i >= len(t), tuple(0, 0), qe_muladd(qe_horner(t, s, i + 1), s, t[i]))
+
+//@ func (p *Chip) ReduceWithPowers(terms []QuadraticExtensionVariable, scalar QuadraticExtensionVariable) (res QuadraticExtensionVariable)
+//@   props C05 C08
+//@   circuit
+//@   requires chipok(p) && canonQE(scalar) && forall(k, 0, len(terms), canonQE(terms[k]))
+//@   ensures canonQE(res)
+//@   ensures res == qe_horner(terms, scalar, 0)
+//@   loop 0 invariant -1 <= i && i < len(terms) && canonQE(sum) && sum == qe_horner(terms, scalar, i + 1)
+
+// Inner product: startingAcc + sum_k (pairs[k][0] * constant) * pairs[k][1], reduced once at the end.
+// qe_ipsum is the exact (unreduced) integer sum the circuit accumulates.
+//@ recdef qe_ipsum(t []QE2, c int, k int) QE = ite(k <= 0, tuple(0, 0), tuple(qe_ipsum(t, c, k-1)[0] + ((t[k-1][0]*c) % P)*t[k-1][2] + 7*((t[k-1][1]*c) % P)*t[k-1][3], qe_ipsum(t, c, k-1)[1] + ((t[k-1][0]*c) % P)*t[k-1][3] + ((t[k-1][1]*c) % P)*t[k-1][2]))
+
+//@ func (p *Chip) InnerProductExtension(constant Variable, startingAcc QuadraticExtensionVariable, pairs [][2]QuadraticExtensionVariable) (res QuadraticExtensionVariable)
+//@   props C05 C08
+//@   circuit
+//@   requires chipok(p) && canon(constant) && canonQE(startingAcc) && len(pairs) <= 256
+//@   requires forall(k, 0, len(pairs), canonQE(pairs[k][0]) && canonQE(pairs[k][1]))
+//@   ensures canonQE(res)
+//@   ensures res == tuple((startingAcc[0] + qe_ipsum(pairs, constant, len(pairs))[0]) % P, (startingAcc[1] + qe_ipsum(pairs, constant, len(pairs))[1]) % P)
+//@   loop 0 invariant 0 <= i && i <= len(pairs) &&
+//@        acc == tuple(startingAcc[0] + qe_ipsum(pairs, constant, i)[0], startingAcc[1] + qe_ipsum(pairs, constant, i)[1]) &&
+//@        0 <= acc[0].Limb && acc[0].Limb <= startingAcc[0].Limb + i*8*P*P && 0 <= acc[1].Limb && acc[1].Limb <= startingAcc[1].Limb + i*2*P*P
+
+// Exponentiation by squaring, exactly plonky2's exp_u64: for j in 0..bits(e): if bit j then product *= current; current = current^2.
+//@ recdef qe_pow_sm(cur QE, prod QE, e int, j int, n int) QE = ite(j >= n, prod, qe_pow_sm(qe_mul(cur, cur), ite((e / pow2(j)) % 2 == 1, qe_mul(prod, cur), prod), e, j + 1, n))
+
+//@ func (p *Chip) ExpExtension(a QuadraticExtensionVariable, exponent uint64) (res QuadraticExtensionVariable)
+//@   props C05 C08
+//@   circuit
+//@   requires chipok(p) && canonQE(a)
+//@   ensures canonQE(res)
+//@   ensures res == qe_pow_sm(a, tuple(1, 0), exponent, 0, bitlen(exponent))
+//@   loop 0 invariant 0 <= i && i <= bitlen(exponent) && canonQE(current) && canonQE(product) &&
+//@        qe_pow_sm(ite(i == 0, current, qe_mul(current, current)), product, exponent, i, bitlen(exponent)) == qe_pow_sm(a, tuple(1, 0), exponent, 0, bitlen(exponent))
+
+// ------------------------------------------------------------------ degree-2 algebra over GF(p^2): pairs (u0, u1) with Y^2 = 7
+//@ def qea_add(a, b) = tuple(qe_add(a[0], b[0]), qe_add(a[1], b[1]))
+//@ def qea_sub(a, b) = tuple(qe_sub(a[0], b[0]), qe_sub(a[1], b[1]))
+//@ def qea_smul(s, b) = tuple(qe_mul(s, b[0]), qe_mul(s, b[1]))
+//@ def qea_mul(a, b) = tuple(tuple((a[0][0]*b[0][0] + 7*a[0][1]*b[0][1] + 7*(a[1][0]*b[1][0] + 7*a[1][1]*b[1][1])) % P, (a[0][0]*b[0][1] + a[0][1]*b[0][0] + 7*(a[1][0]*b[1][1] + a[1][1]*b[1][0])) % P), tuple((a[0][0]*b[1][0] + 7*a[0][1]*b[1][1] + a[1][0]*b[0][0] + 7*a[1][1]*b[0][1]) % P, (a[0][0]*b[1][1] + a[0][1]*b[1][0] + a[1][0]*b[0][1] + a[1][1]*b[0][0]) % P))
+//@ def canonQEA(a) = canonQE(a[0]) && canonQE(a[1])
+
+//@ func (p *Chip) AddExtensionAlgebra(a QuadraticExtensionAlgebraVariable, b QuadraticExtensionAlgebraVariable) (res QuadraticExtensionAlgebraVariable)
+//@   props C05 C08
+//@   circuit
+//@   requires chipok(p) && canonQEA(a) && canonQEA(b)
+//@   ensures canonQEA(res)
+//@   ensures res == qea_add(a, b)
+
+//@ func (p *Chip) SubExtensionAlgebra(a QuadraticExtensionAlgebraVariable, b QuadraticExtensionAlgebraVariable) (res QuadraticExtensionAlgebraVariable)
+//@   props C05 C08
+//@   circuit
+//@   requires chipok(p) && canonQEA(a) && canonQEA(b)
+//@   ensures canonQEA(res)
+//@   ensures res == qea_sub(a, b)
+
+//@ func (p *Chip) ScalarMulExtensionAlgebra(a QuadraticExtensionVariable, b QuadraticExtensionAlgebraVariable) (res QuadraticExtensionAlgebraVariable)
+//@   props C05 C08
+//@   circuit
+//@   requires chipok(p) && canonQE(a) && canonQEA(b)
+//@   ensures canonQEA(res)
+//@   ensures res == qea_smul(a, b)
+
+//@ func (p *Chip) MulExtensionAlgebra(a QuadraticExtensionAlgebraVariable, b QuadraticExtensionAlgebraVariable) (res QuadraticExtensionAlgebraVariable)
+//@   props C05 C08
+//@   circuit
+//@   requires chipok(p) && canonQEA(a) && canonQEA(b)
+//@   ensures canonQEA(res)
+//@   ensures res == qea_mul(a, b)
